@@ -85,6 +85,7 @@ def _split_top(s, sep=","):
 
 
 _impl_cache = {}
+SOURCE_ROOT = None  # set by runner.load_mir to the overlay copy the MIR was dumped from
 
 
 def _impl_type(path, line):
@@ -93,7 +94,7 @@ def _impl_type(path, line):
     if key in _impl_cache:
         return _impl_cache[key]
     name = None
-    for root in (ov.REPO, os.path.dirname(ov.REPO)):
+    for root in ([SOURCE_ROOT] if SOURCE_ROOT else []) + [ov.REPO, os.path.dirname(ov.REPO)]:
         p = os.path.join(root, path)
         if os.path.exists(p):
             try:
